@@ -19,6 +19,7 @@ import numpy as np
 from vt import alg, extract, sx
 from vt.alg import Ctx, X
 from vt.core import Ob, Verdict, Refuted, Unsupported, DISCHARGED, REFUTED
+from . import ops
 from . import common
 
 PROP = "C07"
@@ -555,13 +556,15 @@ def build(tier, seed):
         obs.append(Ob(f"C07.center.{case}", ob_simu_center, (case,), "X", ("EasyFEA/Simulations/_simu.py::_Simu.center", "EasyFEA/Simulations/_beam.py::Beam.center"), bound="one mesh",
                       clause="centre of mass of a simulation: exact on a mesh centred at the origin; mass-weighted for beams with different sections", timeout=300))
     obs.append(Ob("canary.Triangle.3", ob_rule, ("Triangle", 3, 1, True), "P", expect=REFUTED))
+    obs += ops.measure_obligations('C07', tier)
+    obs.append(ops.selfcheck_ob('C07'))
     return dict(
         obs=obs, level="proof", min_obligations=60,
         explanation=("Every tabulated rule (_Triangle, _Quadrangle, _Tetrahedron, _Hexahedron, _Prism at every point count its "
                      "docstring lists) is executed from the extracted AST in exact arithmetic and checked against closed-form "
                      "reference integrals for every monomial of the documented order; the factory if-chain is executed for every "
                      "accepted (element type, matrix type) pair. Finite and ground, hence complete."),
-        trusted_base=["decimal literals read as exact rationals; np.sqrt(k) as the algebraic number (independent sqrt(prime) generators)",
+        trusted_base=ops.GP_TRUST + ["decimal literals read as exact rationals; np.sqrt(k) as the algebraic number (independent sqrt(prime) generators)",
                       "closed-form monomial integrals on the reference shapes",
                       "np.polynomial.legendre.leggauss is external: its float output is checked at run time, not proved",
                       "sympy normal form; mpmath 80-digit sign evaluation of ground algebraic numbers"],
